@@ -1,6 +1,7 @@
 package props
 
 import (
+	"encoding/json"
 	"fmt"
 	"strings"
 
@@ -312,5 +313,38 @@ done:
 	r.Interleaving = uint64(trace)
 	r.TraceHash = uint64(trace)
 	r.Sample = h
+	return r
+}
+
+// RunScript: every step that starts with "write(" is a placement of the probe; all must print the same.
+func (C03) RunScript(raw json.RawMessage) core.Result {
+	var r core.Result
+	sc, h, err := parseScript(raw)
+	if err != nil {
+		r.Discard = err.Error()
+		return r
+	}
+	s := sess.New()
+	var base *sess.Outcome
+	for i, src := range sc.Steps {
+		outs := s.Submit(src+"\n", sc.Flavour == "repl")
+		o := outs[len(outs)-1]
+		if o.Kind == sess.KPanic {
+			r.Violation = panicViolation("panic", o, h)
+			return r
+		}
+		if !strings.HasPrefix(src, "write(") {
+			continue
+		}
+		if base == nil {
+			b := o
+			base = &b
+			continue
+		}
+		if o.Kind != base.Kind || o.Out != base.Out || o.Err != base.Err {
+			r.Violation = &core.Violation{Clause: "placement-differs", Detail: fmt.Sprintf("step %d gave %s, the first placement gave %s", i+1, o.Brief(), base.Brief()), History: h}
+			return r
+		}
+	}
 	return r
 }
